@@ -218,7 +218,7 @@ def main(argv=None):
                 kf_functions.add(it.label)
                 continue
             lost = it.notes is not None and it.notes.counts.get('LOST-ANCHOR', 0) > 0
-            if lost and d.kind in ('assert', 'loop-invariant', 'loop-invariant-end', 'loop-invariant-entry', 'decreases'):
+            if lost and (os.environ.get('VERIF_LOST_BROAD') or d.kind in ('assert', 'loop-invariant', 'loop-invariant-end', 'loop-invariant-entry', 'decreases')):
                 undecided.append('unit %s: %s fails a proof-internal obligation after a proof hint lost its anchor (code shape changed): %s' % (uname, it.label, oid))
                 continue
             if oid not in violations:
